@@ -23,6 +23,7 @@ import (
 	"github.com/consensys/gnark/constraint"
 	"github.com/consensys/gnark/frontend"
 	"github.com/consensys/gnark/std/algebra"
+	"github.com/consensys/gnark/std/algebra/algopts"
 	"github.com/consensys/gnark/std/algebra/emulated/sw_bls12381"
 	"github.com/consensys/gnark/std/algebra/emulated/sw_bn254"
 	"github.com/consensys/gnark/std/algebra/emulated/sw_bw6761"
@@ -674,10 +675,21 @@ func (v *Verifier[FR, G1El, G2El, GtEl]) AssertProof(vk VerifyingKey[G1El, G2El,
 	if err != nil {
 		return fmt.Errorf("multi scalar mul: %w", err)
 	}
-	kSum = v.curve.Add(kSum, &vk.G1.K[0])
+	// with complete arithmetic the multi scalar multiplication may return the point at
+	// infinity (e.g. a single public input equal to zero): the remaining additions have
+	// to be complete too
+	add := v.curve.Add
+	algCfg, err := algopts.NewConfig(opt.algopt...)
+	if err != nil {
+		return fmt.Errorf("apply algebra options: %w", err)
+	}
+	if algCfg.CompleteArithmetic {
+		add = v.curve.AddUnified
+	}
+	kSum = add(kSum, &vk.G1.K[0])
 
 	for i := range proof.Commitments {
-		kSum = v.curve.Add(kSum, &proof.Commitments[i].G1El)
+		kSum = add(kSum, &proof.Commitments[i].G1El)
 	}
 
 	if opt.forceSubgroupCheck {
